@@ -559,3 +559,57 @@ def run_model(cases, name, shard=24):
     exprs = [f"run {v} {coq_bytes(exp)} {term}" for v, exp, term in cases]
     outs = coqrun.eval_cases(MODEL_PRELUDE, exprs, name, shard=shard, timeout=600)
     return [parse_run(o) for o in outs]
+
+
+# ---------------------------------------------------------------- in-process probe of PUSH / PUSH_N arguments
+
+class PushProbe:
+    """Wraps instructions.PUSH / PUSH_N / calc_push_size in every loaded vyper module (callers import
+    them by name) and records each argument; out-of-domain calls are kept with their call site."""
+
+    def __init__(self):
+        self.calls = 0
+        self.max_seen = -1
+        self.min_seen = None
+        self.bad = []
+        self.sites = {}
+        self._undo = []
+
+    def _wrap(self, fn, name):
+        import sys as _sys
+        probe = self
+
+        def wrapper(x, *a, **k):
+            probe.calls += 1
+            fr = _sys._getframe(1)
+            site = f"{fr.f_code.co_filename.split('vyper/')[-1]}:{fr.f_code.co_name}"
+            probe.sites[site] = probe.sites.get(site, 0) + 1
+            if isinstance(x, int):
+                probe.max_seen = max(probe.max_seen, x)
+                probe.min_seen = x if probe.min_seen is None else min(probe.min_seen, x)
+            ok = isinstance(x, int) and not isinstance(x, bool) and 0 <= x < 2**256
+            if name == "PUSH_N":
+                ok = isinstance(x, int)   # PUSH_N guards itself (assert); any int is in its domain
+            if not ok and len(probe.bad) < 5:
+                probe.bad.append({"function": name, "argument": repr(x)[:90], "call_site": f"{site}:{fr.f_lineno}"})
+            return fn(x, *a, **k)
+
+        wrapper.__wrapped__ = fn
+        return wrapper
+
+    def __enter__(self):
+        import sys as _sys
+        I = _imports()
+        for name in ("PUSH", "PUSH_N", "calc_push_size"):
+            orig = getattr(I, name)
+            w = self._wrap(orig, name)
+            for mn, mod in list(_sys.modules.items()):
+                if mn.startswith("vyper") and mod is not None and getattr(mod, name, None) is orig:
+                    setattr(mod, name, w)
+                    self._undo.append((mod, name, orig))
+        return self
+
+    def __exit__(self, *a):
+        for mod, name, orig in self._undo:
+            setattr(mod, name, orig)
+        self._undo = []
